@@ -416,6 +416,19 @@ pub fn restrictions(net: &Net, tier: Tier) -> Vec<Restr> {
             out.push(Restr { classes: t.clone(), query_classes: q.clone(), class_names: names.clone(), ..Default::default() });
         }
     }
+    // tables that hold a class the name mapping does not mention (7): sets that cover every mapped class, by name and by
+    // number, in either order and with a further number, still exclude it
+    {
+        let t7: Vec<Vec<u8>> = vec![(0..m).map(|e| [0u8, 1, 7][(e + idx) % 3]).collect(), (0..m).map(|e| if e == idx % m { 7 } else { (e % 2) as u8 }).collect()];
+        for (ti, t) in t7.iter().enumerate() {
+            for (qi, q) in [json!(["local", "highway"]), json!(["highway", "local"]), json!([0, 1]), json!([1, 0, 3]), json!([0, 1, 7])].iter().enumerate() {
+                if tier == Tier::Quick && (ti + qi + idx) % 3 != 0 {
+                    continue;
+                }
+                out.push(Restr { classes: t.clone(), query_classes: Some(q.clone()), class_names: names.clone(), ..Default::default() });
+            }
+        }
+    }
     // vehicle restrictions: each of the six kinds on one or two edges; limit and vehicle one step apart in different units
     let rows = |e: usize, k: usize| -> RawRestriction {
         match k % 6 {
